@@ -144,7 +144,11 @@ pub fn make_font(f: &FontD) -> BitFont {
         }
     }
     if let Some(page) = f.builtin {
-        if let Ok(font) = BitFont::from_ansi_font_page(page) {
+        if let Ok(mut font) = BitFont::from_ansi_font_page(page) {
+            // a renamed copy of a stock page: the glyphs of the built-in font under another name
+            if f.name.starts_with("renamed ") {
+                font.name = f.name.clone();
+            }
             return font;
         }
     }
@@ -265,6 +269,8 @@ pub fn build(doc: &DocD) -> Buffer {
         buf.palette = pal;
     }
     for f in &doc.fonts {
+        // the slot is emptied first, so that the font is the one inserted here whatever the slot held before
+        buf.remove_font(f.slot);
         buf.set_font(f.slot, make_font(f));
     }
     buf.layers.clear();
